@@ -228,6 +228,7 @@ func (p *Prog) EntryLocks() map[*ssa.Function]Held {
 		call   ssa.CallInstruction
 	}
 	sites := map[*ssa.Function][]site{}
+	callbackSite := map[ssa.CallInstruction]bool{}
 	escaping := map[*ssa.Function]bool{} // referenced as a value other than direct call
 	for _, fn := range p.Repo {
 		AllInstrs(fn, func(in ssa.Instruction) {
@@ -252,6 +253,17 @@ func (p *Prog) EntryLocks() map[*ssa.Function]Held {
 				case *ssa.Function:
 					if c, ok := in.(ssa.CallInstruction); ok && c.Common().Value == x {
 						continue
+					}
+					// handed to a repo function that does nothing with it but call it (r.count(countRequest)): the calls
+					// inside that function are its call sites
+					if c, ok := in.(ssa.CallInstruction); ok {
+						if inner := callbackCalls(p, c, x); len(inner) > 0 {
+							for _, ic := range inner {
+								sites[x] = append(sites[x], site{ic.Parent(), ic})
+								callbackSite[ic] = true
+							}
+							continue
+						}
 					}
 					escaping[x] = true
 				case *ssa.MakeClosure:
@@ -303,6 +315,12 @@ func (p *Prog) EntryLocks() map[*ssa.Function]Held {
 						tr[k] = w
 					}
 				}
+				if callbackSite[s.call] {
+					// a callback cannot name the caller's lock; it still runs with it held
+					for k, w := range h {
+						tr[LockKey("outer:"+string(k))] = w
+					}
+				}
 				if i == 0 {
 					acc = tr
 				} else {
@@ -321,4 +339,47 @@ func (p *Prog) EntryLocks() map[*ssa.Function]Held {
 		}
 	}
 	return entry
+}
+
+// callbackCalls: c is a static call of a repo function h that passes the function g as an argument whose parameter h
+// only ever calls (synchronously): returns those calls inside h.
+func callbackCalls(p *Prog, c ssa.CallInstruction, g *ssa.Function) []ssa.CallInstruction {
+	h := c.Common().StaticCallee()
+	if h == nil || !p.InRepo(h) || len(h.Blocks) == 0 {
+		return nil
+	}
+	if _, isGo := c.(*ssa.Go); isGo {
+		return nil
+	}
+	if _, isDefer := c.(*ssa.Defer); isDefer {
+		return nil
+	}
+	var out []ssa.CallInstruction
+	for i, a := range c.Common().Args {
+		if a != ssa.Value(g) || i >= len(h.Params) {
+			continue
+		}
+		prm := h.Params[i]
+		refs := prm.Referrers()
+		if refs == nil || len(*refs) == 0 {
+			return nil
+		}
+		for _, ref := range *refs {
+			ic, ok := ref.(ssa.CallInstruction)
+			if !ok || ic.Common().Value != ssa.Value(prm) {
+				if _, isDbg := ref.(*ssa.DebugRef); isDbg {
+					continue
+				}
+				return nil
+			}
+			if _, isGo := ref.(*ssa.Go); isGo {
+				return nil
+			}
+			if _, isDefer := ref.(*ssa.Defer); isDefer {
+				return nil
+			}
+			out = append(out, ic)
+		}
+	}
+	return out
 }
